@@ -89,6 +89,94 @@ package oidc
 //@   ensures  fail: err != nil ==> View[self.pay][sessionID] == old(View)[self.pay][sessionID] || !View[self.pay][sessionID].present
 
 // ---------------------------------------------------------------------------------------------
+// SessionStore in a fault-free run (C03, variant live): the sequential contract, and no operation
+// reports an error. Generated from the contracts above.
+// ---------------------------------------------------------------------------------------------
+
+//@ interface SessionStore method GetTokenResponse(self, ctx, sessionID) (t, err)
+//@   variant live
+//@   modifies ghost View, ghost Clk
+//@   ensures  clock: Clk >= old(Clk)
+//@   ensures  timeout: t != nil ==> !TimedOut(old(View)[self.pay][sessionID], old(Clk), StoreAbs(self), StoreIdle(self))
+//@   ensures  kept_inside: t == nil && err == nil && old(View)[self.pay][sessionID].present && old(View)[self.pay][sessionID].hasTok ==> !InsideLimits(old(View)[self.pay][sessionID], Clk, StoreAbs(self), StoreIdle(self)) || !JwtParses(old(View)[self.pay][sessionID].tok.id)
+//@   ensures  frame: OnlySid(old(View), View, self.pay, sessionID)
+//@   ensures  frame_pw: OnlySidPW(old(View), View, self.pay, sessionID)
+//@   derived  frame by L-onlysid-ext
+//@   ensures  err_nil: err != nil ==> t == nil
+//@   ensures  got: t != nil ==> old(View)[self.pay][sessionID].present && old(View)[self.pay][sessionID].hasTok && TokOf(t) == old(View)[self.pay][sessionID].tok
+//@   ensures  got_kept: t != nil ==> Touched(old(View)[self.pay][sessionID], View[self.pay][sessionID])
+//@   ensures  refreshed: t != nil && View[self.pay][sessionID].present ==> Refreshed(View[self.pay][sessionID], old(Clk), Clk, StoreAbs(self), StoreIdle(self))
+//@   ensures  after: Touched(old(View)[self.pay][sessionID], View[self.pay][sessionID]) || !View[self.pay][sessionID].present
+//@   ensures  no_fault: err == nil && Clk <= ROpEnd
+
+//@ interface SessionStore method GetAuthorizationState(self, ctx, sessionID) (a, err)
+//@   variant live
+//@   modifies ghost View, ghost Clk
+//@   ensures  clock: Clk >= old(Clk)
+//@   ensures  timeout: a != nil ==> !TimedOut(old(View)[self.pay][sessionID], old(Clk), StoreAbs(self), StoreIdle(self))
+//@   ensures  kept_inside: a == nil && err == nil && old(View)[self.pay][sessionID].present && old(View)[self.pay][sessionID].hasAuth ==> !InsideLimits(old(View)[self.pay][sessionID], Clk, StoreAbs(self), StoreIdle(self))
+//@   ensures  frame: OnlySid(old(View), View, self.pay, sessionID)
+//@   ensures  frame_pw: OnlySidPW(old(View), View, self.pay, sessionID)
+//@   derived  frame by L-onlysid-ext
+//@   ensures  err_nil: err != nil ==> a == nil
+//@   ensures  got: a != nil ==> old(View)[self.pay][sessionID].present && old(View)[self.pay][sessionID].hasAuth && AuthOf(a) == old(View)[self.pay][sessionID].auth
+//@   ensures  got_kept: a != nil ==> Touched(old(View)[self.pay][sessionID], View[self.pay][sessionID])
+//@   ensures  refreshed: a != nil && View[self.pay][sessionID].present ==> Refreshed(View[self.pay][sessionID], old(Clk), Clk, StoreAbs(self), StoreIdle(self))
+//@   ensures  after: Touched(old(View)[self.pay][sessionID], View[self.pay][sessionID]) || !View[self.pay][sessionID].present
+//@   ensures  no_fault: err == nil && Clk <= ROpEnd
+
+//@ interface SessionStore method SetTokenResponse(self, ctx, sessionID, tokenResponse) err
+//@   variant live
+//@   requires tok_nonnil: tokenResponse != nil
+//@   requires tok_id: tokenResponse.IDToken != ""
+//@   modifies ghost View, ghost Clk
+//@   ensures  clock: Clk >= old(Clk)
+//@   ensures  frame: OnlySid(old(View), View, self.pay, sessionID)
+//@   ensures  frame_pw: OnlySidPW(old(View), View, self.pay, sessionID)
+//@   derived  frame by L-onlysid-ext
+//@   ensures  ok: err == nil ==> SetTokPost(old(View)[self.pay][sessionID], View[self.pay][sessionID], TokOf(tokenResponse)) || (Expirable(old(View)[self.pay][sessionID], Clk, StoreAbs(self), StoreIdle(self)) && SetTokPost(AbsentSession(), View[self.pay][sessionID], TokOf(tokenResponse)))
+//@   ensures  refreshed: err == nil && View[self.pay][sessionID].present ==> Refreshed(View[self.pay][sessionID], old(Clk), Clk, StoreAbs(self), StoreIdle(self))
+//@   ensures  fail: err != nil ==> View[self.pay][sessionID] == old(View)[self.pay][sessionID] || !View[self.pay][sessionID].present || SetTokPost(old(View)[self.pay][sessionID], View[self.pay][sessionID], TokOf(tokenResponse)) || (Expirable(old(View)[self.pay][sessionID], Clk, StoreAbs(self), StoreIdle(self)) && SetTokPost(AbsentSession(), View[self.pay][sessionID], TokOf(tokenResponse)))
+//@   ensures  no_fault: err == nil && Clk <= ROpEnd
+
+//@ interface SessionStore method SetAuthorizationState(self, ctx, sessionID, authorizationState) err
+//@   variant live
+//@   requires auth_nonnil: authorizationState != nil
+//@   requires auth_full: authorizationState.State != "" && authorizationState.Nonce != "" && authorizationState.RequestedURL != "" && authorizationState.CodeVerifier != ""
+//@   modifies ghost View, ghost Clk
+//@   ensures  clock: Clk >= old(Clk)
+//@   ensures  frame: OnlySid(old(View), View, self.pay, sessionID)
+//@   ensures  frame_pw: OnlySidPW(old(View), View, self.pay, sessionID)
+//@   derived  frame by L-onlysid-ext
+//@   ensures  ok: err == nil ==> SetAuthPost(old(View)[self.pay][sessionID], View[self.pay][sessionID], AuthOf(authorizationState)) || (Expirable(old(View)[self.pay][sessionID], Clk, StoreAbs(self), StoreIdle(self)) && SetAuthPost(AbsentSession(), View[self.pay][sessionID], AuthOf(authorizationState)))
+//@   ensures  refreshed: err == nil && View[self.pay][sessionID].present ==> Refreshed(View[self.pay][sessionID], old(Clk), Clk, StoreAbs(self), StoreIdle(self))
+//@   ensures  fail: err != nil ==> View[self.pay][sessionID] == old(View)[self.pay][sessionID] || !View[self.pay][sessionID].present || SetAuthPost(old(View)[self.pay][sessionID], View[self.pay][sessionID], AuthOf(authorizationState)) || (Expirable(old(View)[self.pay][sessionID], Clk, StoreAbs(self), StoreIdle(self)) && SetAuthPost(AbsentSession(), View[self.pay][sessionID], AuthOf(authorizationState)))
+//@   ensures  no_fault: err == nil && Clk <= ROpEnd
+
+//@ interface SessionStore method ClearAuthorizationState(self, ctx, sessionID) err
+//@   variant live
+//@   modifies ghost View, ghost Clk
+//@   ensures  clock: Clk >= old(Clk)
+//@   ensures  frame: OnlySid(old(View), View, self.pay, sessionID)
+//@   ensures  frame_pw: OnlySidPW(old(View), View, self.pay, sessionID)
+//@   derived  frame by L-onlysid-ext
+//@   ensures  absent: !old(View)[self.pay][sessionID].present ==> !View[self.pay][sessionID].present
+//@   ensures  ok: err == nil && old(View)[self.pay][sessionID].present ==> ClearPost(old(View)[self.pay][sessionID], View[self.pay][sessionID]) || (Expirable(old(View)[self.pay][sessionID], Clk, StoreAbs(self), StoreIdle(self)) && !View[self.pay][sessionID].present)
+//@   ensures  fail: err != nil ==> View[self.pay][sessionID] == old(View)[self.pay][sessionID] || !View[self.pay][sessionID].present || ClearPost(old(View)[self.pay][sessionID], View[self.pay][sessionID])
+//@   ensures  no_fault: err == nil && Clk <= ROpEnd
+
+//@ interface SessionStore method RemoveSession(self, ctx, sessionID) err
+//@   variant live
+//@   modifies ghost View, ghost Clk
+//@   ensures  clock: Clk >= old(Clk)
+//@   ensures  frame: OnlySid(old(View), View, self.pay, sessionID)
+//@   ensures  frame_pw: OnlySidPW(old(View), View, self.pay, sessionID)
+//@   derived  frame by L-onlysid-ext
+//@   ensures  ok: err == nil ==> !View[self.pay][sessionID].present
+//@   ensures  fail: err != nil ==> View[self.pay][sessionID] == old(View)[self.pay][sessionID] || !View[self.pay][sessionID].present
+//@   ensures  no_fault: err == nil && Clk <= ROpEnd
+
+// ---------------------------------------------------------------------------------------------
 // SessionStore under interference (C09, variant intf): between two store operations of one check,
 // other requests may have answered logouts — sessions removed and marked in the ghost LoggedOut.
 // EnvView is the store content the operation finds; every clause of the sequential contract is
